@@ -579,6 +579,14 @@ func (f *Field) applyOptions(opt FieldOptions) error {
 		f.options.Min = opt.Min
 		f.options.Max = opt.Max
 		f.options.Base = opt.Base
+		// loadMeta takes a persisted bit depth of zero to mean "written by
+		// the v1 BSI format" and rebases the field on Min. A field of the
+		// current format must therefore never persist a zero bit depth, or
+		// a field with Min != 0 that only ever stored 0 (or nothing) would
+		// be rebased, and read back shifted by Min, after a restart.
+		if opt.BitDepth == 0 {
+			opt.BitDepth = 1
+		}
 		f.options.BitDepth = opt.BitDepth
 		f.options.TimeQuantum = ""
 		f.options.Keys = opt.Keys
